@@ -29,6 +29,9 @@ def obs_container(pp, subs, c):
         rs = ref.rsub(s)
         out.append(float(ref.base_amount(pp, rs, a)) * (1 if rs.kind == 'enzyme' else 1000.0))        # mmol or U
     out.append(c.get_volume('mL'))
+    # the unit left out: the configured DISPLAY unit (the same in every configuration compared here). Kept in thousandths of
+    # the last displayed digit, so that a rounding tie that falls the other way stays inside the 2e-3 tolerance
+    out.append(c.get_volume() * 10.0 ** _prec(pp, pp.config.volume_display_unit) * 1e-3)
     out.append(c.max_volume * float(ref.storage_prefix(pp, 'L')) * 1000 if c.max_volume != float('inf') else -1.0)
     vol_l = float(ref.measure(pp, c.contents, 'L'))
     for n in sorted(subs):
@@ -51,6 +54,12 @@ def obs_object(pp, subs, o):
             out += obs_container(pp, subs, w)
         out += numpy.asarray(o.get_volumes(unit='mL'), dtype=float).flatten().tolist()
         out += numpy.asarray(o.get_moles(subs['nacl'], unit='mmol'), dtype=float).flatten().tolist()
+        kv, km = (10.0 ** _prec(pp, pp.config.volume_display_unit) * 1e-3, 10.0 ** _prec(pp, pp.config.moles_display_unit) * 1e-3)
+        out += (numpy.asarray(o.get_volumes(), dtype=float).flatten() * kv).tolist()
+        out += (numpy.asarray(o.get_volumes(subs['water']), dtype=float).flatten() * kv).tolist()
+        out += (numpy.asarray(o.get_moles(subs['nacl']), dtype=float).flatten() * km).tolist()
+        out += (numpy.asarray(o.get_moles([subs['nacl'], subs['water']]), dtype=float).flatten() * km).tolist()
+        out.append(float(o.get_volume()) * kv / o.wells.size)       # a sum of per-well roundings: one tie per well may fall the other way
         return out
     return obs_container(pp, subs, o)
 
